@@ -17,23 +17,26 @@ KM_LOOP = {"secp256k1_whitelist_compute_keys_and_message": {"for (i = 0; i < n_k
     "invariants": "0 <= i && i <= n_keys && 0 <= g_illegal && g_illegal <= 2 * i + 1 && sha.bytes == 33 + 66 * (unsigned long)i && g_fin_n == 0 && g_h_fresh == 0 && g_w_started == 1 && g_w_b0 == 0 && g_w_s0 == 0x6a09e667 && g_w_s7 == 0x5be0cd19 && (g_wpos < sha.bytes ==> (g_w_hit == 1 && g_w_byte == verif_wl_expect)) && (g_wpos >= sha.bytes ==> g_w_hit == 0)",
     "decreases": "n_keys - i"}}}
 UNITS = [
-    U("C16.sig_parse", ["C16", "C07"], CODEC, "h_wl_parse", assumed=["memcpy"], replace=["memcpy"], defs=["EL_MEMCPY_FAST", "EL_CONTENT"],
+    U("C16.sig_parse", ["C16", "C07"], CODEC, "h_wl_parse", assumed=["memcpy"], replace=["memcpy"], defs=["EL_MEMCPY_FAST"],
       functions=["secp256k1_whitelist_signature_parse", "secp256k1_whitelist_signature_n_keys"], timeout=600, min_obl=169, unwind=10,
-      note="all byte strings of length <= 9000; memcpy replaced by the bounds + ghost-index contract (DESIGN 2.4)"),
-    U("C16.sig_serialize", ["C16", "C07"], CODEC, "h_wl_serialize", assumed=["memcpy"], replace=["memcpy"], defs=["EL_MEMCPY_FAST", "EL_CONTENT"],
+      note="all byte strings of length <= 9000; memcpy replaced by the bounds + destination-relative watch contract"),
+    U("C16.sig_parse_link", ["C16"], CODEC, "h_wl_parse", assumed=["memcpy"], replace=["memcpy"], defs=["EL_MEMCPY_FAST", "EL_CONTENT"],
+      functions=["secp256k1_whitelist_signature_parse", "secp256k1_whitelist_signature_n_keys"], tier="thorough", timeout=1800, min_obl=169, unwind=10,
+      note="all byte strings of length <= 9000; as sig_parse plus the REPRESENTATION LINK payload byte k -> data[k] that the verify/sign units (reading scalars from the object) rest on"),
+    U("C16.sig_serialize", ["C16", "C07"], CODEC, "h_wl_serialize", assumed=["memcpy"], replace=["memcpy"], defs=["EL_MEMCPY_FAST"],
       functions=["secp256k1_whitelist_signature_serialize"], timeout=600, min_obl=168, unwind=10,
       note="every valid object (n_keys <= 255) and every capacity <= 9000"),
     U("C16.sig_roundtrip", ["C16"], CODEC, "h_wl_roundtrip", defs=["EL_MEMCPY_FAST"], assumed=["memcpy"], replace=["memcpy"],
       functions=["secp256k1_whitelist_signature_parse", "secp256k1_whitelist_signature_serialize"], timeout=900, min_obl=221, unwind=10,
       note="serialize(parse(b)) == b for every accepted b (ghost byte index)"),
-    U("C16.keys_msg", ["C16", "C07"], KM, "h_wl_keys_msg", replace=KM_REPL, assumed=["secp256k1_gej_add_ge_var", "secp256k1_whitelist_tweak_pubkey"],
+    U("C16.keys_msg", ["C16", "C07"], KM, "h_wl_keys_msg", replace=KM_REPL, assumed=KM_REPL,
       loop_contracts=KM_LOOP, functions=KM_FUNCS, timeout=1800, min_obl=1575, unwind=34, tier="thorough",
       closed_by="loop contract over the key list (engine-supplied, no /repo edit): stream length 33 + 66 i and the watched stream byte as invariant, decreases clause",
       note="every list length 0..255; stream-level hash contract (hash_log.h); a key object with x = 0 makes pubkey_load report illegal use (tolerated here, see keys_msg_b2)"),
-    U("C16.keys_msg_b2", ["C16", "C07"], KM, "h_wl_keys_msg", replace=KM_REPL, assumed=["secp256k1_gej_add_ge_var", "secp256k1_whitelist_tweak_pubkey"],
+    U("C16.keys_msg_b2", ["C16", "C07"], KM, "h_wl_keys_msg", replace=KM_REPL, assumed=KM_REPL,
       defs=["KM_MAX=2", "KM_VALID_ALL"], functions=KM_FUNCS, timeout=900, min_obl=1502, unwind=34, unwindset=["secp256k1_whitelist_compute_keys_and_message.0:4"], bounded="n_keys<=2",
       note="unwound list of at most 2 pairs with ALL key objects valid: additionally no callback"),
-    U("C16.keys_wiring_b2", ["C16", "C07"], KM, "h_wl_keys_msg", replace=KM_REPL, assumed=["secp256k1_gej_add_ge_var", "secp256k1_whitelist_tweak_pubkey"],
+    U("C16.keys_wiring_b2", ["C16", "C07"], KM, "h_wl_keys_msg", replace=KM_REPL, assumed=KM_REPL,
       defs=["KM_MAX=2", "KM_WIRING"], functions=KM_FUNCS, timeout=900, min_obl=1502, unwind=34, unwindset=["secp256k1_whitelist_compute_keys_and_message.0:4"], bounded="n_keys<=2",
       note="unwound list of at most 2 pairs with ALL key objects valid: ring key i = online_i + tweak(offline_i + W): operands of the two oracle additions and of the tweak by value, destination keys[i]"),
     U("C16.sign_key_gate", ["C16"], "harness/C16/tweaked_privkey.c", "h_wl_tweaked_privkey",
@@ -43,19 +46,27 @@ UNITS = [
       note="the signing-key computation of whitelist_sign for all (online, summed) 32-byte keys"),
     U("C16.sign_gate", ["C16"], "harness/C16/sign.c", "h_wl_sign",
       replace=["secp256k1_whitelist_compute_keys_and_message", "secp256k1_whitelist_compute_tweaked_privkey", "nonce_function_rfc6979", "secp256k1_borromean_sign"],
-      assumed=["nonce_function_rfc6979", "secp256k1_borromean_sign"], bounded="signing path: n_keys<=1, <=4 nonce-function calls",
+      assumed=["secp256k1_whitelist_compute_keys_and_message", "secp256k1_whitelist_compute_tweaked_privkey", "nonce_function_rfc6979", "secp256k1_borromean_sign"], bounded="signing path: n_keys<=1, <=4 nonce-function calls",
       unwindset=["secp256k1_whitelist_sign.0:3", "secp256k1_whitelist_sign.1:6"],
       functions=["secp256k1_whitelist_sign"], timeout=1800, min_obl=856, unwind=34, tier="thorough",
       note="argument gates for every n_keys and index; signing path bounded (the nonce retry loop has a `continue`: no CBMC loop contract); the signing-key gate itself is C16.sign_key_gate"),
-    U("C16.verify_nonempty", ["C16"], "harness/C16/nonempty.c", "h_wl_nonempty", replace=VER_REPL, assumed=["secp256k1_borromean_verify"],
+    # the whitelist verifier's ring gates (s = 0, key at infinity at EVERY ring position) live in secp256k1_borromean_verify, which
+    # the verify-gate units replace by an oracle: this is the rangeproof engineer's bounded unit C10.borromean_r1 (harness/C10/borromean.c,
+    # single ring of 1..4 members - the whitelist/surjection call shape) listed under C16/C11 as well, so that `./check C16` sees a defect
+    # such as seeded/C16-2 (infinity test on pubs[i] instead of pubs[count]).  compute_keys_and_message has NO infinity gate of its own.
+    U("C16.borromean_ring_gates_r1", ["C16", "C11"], "harness/C10/borromean.c", "h_borromean_verify", defs=["MAXRINGS=1"],
+      assumed=["secp256k1_ecmult", "secp256k1_ge_set_gej_var", "secp256k1_sha256_write", "secp256k1_sha256_finalize"], functions=["secp256k1_borromean_verify", "secp256k1_borromean_hash", "secp256k1_eckey_pubkey_serialize33"],
+      timeout=900, min_obl=100, unwind=34, unwindset=["secp256k1_borromean_verify.0:5", "secp256k1_borromean_verify.1:2"],
+      bounded="one ring of <= 4 members", note="same harness and settings as C10.borromean_r1 (owned by the rangeproof engineer); ring sizes up to 255/256 are NOT covered"),
+    U("C16.verify_nonempty", ["C16"], "harness/C16/nonempty.c", "h_wl_nonempty", replace=VER_REPL, assumed=VER_REPL,
       functions=["secp256k1_whitelist_verify"], timeout=600, min_obl=541, unwind=34, replay=True,
       closed_by="n_keys = 0 makes the scalar loop run 0 times on every path that reaches it (unwinding assertion)",
       note="finding F1: passes since /repo commit 07da080; native replay constructs the forged e0 = SHA256(SHA256(ser33(W))) and runs the real function"),
-    U("C16.verify_gate_b8", ["C16", "C07"], VER, "h_wl_verify", replace=VER_REPL, assumed=["secp256k1_borromean_verify"], defs=["EL_BOUND=8"],
-      functions=VER_FUNCS, solver="cadical", timeout=900, min_obl=565, unwind=34, bounded="n_keys<=8",
+    U("C16.verify_gate_b8", ["C16", "C07"], VER, "h_wl_verify", replace=VER_REPL, assumed=VER_REPL, defs=["EL_BOUND=8"],
+      functions=VER_FUNCS, timeout=900, min_obl=565, unwind=34, bounded="n_keys<=8",
       note="scalar loop unwound for signatures of at most 8 keys: gives a concrete counterexample (ring position, bytes) when a gate is broken"),
-    U("C16.verify_gate", ["C16", "C07"], VER, "h_wl_verify", replace=VER_REPL, assumed=["secp256k1_borromean_verify"],
-      loop_contracts=WL_VERIFY_LOOP, functions=VER_FUNCS, solver="cadical", timeout=1800, min_obl=602, unwind=34, tier="quick",
+    U("C16.verify_gate", ["C16", "C07"], VER, "h_wl_verify", replace=VER_REPL, assumed=VER_REPL,
+      loop_contracts=WL_VERIFY_LOOP, functions=VER_FUNCS, timeout=1800, min_obl=602, unwind=34, tier="thorough",
       closed_by="loop contract on the scalar loop (engine-supplied, no /repo edit): invariant with ghost ring position, decreases clause; be256 spec loop unwound",
       note="all n_keys 0..255 and any caller count; includes the obligation 'C16 whitelist_verify.nonempty'"),
 ]
